@@ -636,3 +636,69 @@ def splice_generator_helpers(fn):
             fn.module.parent_of[child] = parent
     fn.module.parent_of[node] = fn.module.parent_of.get(fn.node)
     return f2
+
+
+def return_forms(fn, depth: int = 2):
+    """[(facts dict, returned expression AST)] of a function, per control-flow path (path normal form, path-local values
+    resolved).  A path that returns the result of a same-class method / module-level function call is expanded into the callee's
+    own return forms with the arguments substituted (defaults included), so `return self._helper(a, b)` is transparent."""
+    import ast as _ast
+    from ..astutil import substitute_call
+    from ..index import AnalysisError, norm
+    from ..yieldpaths import Unsupported, paths_of, resolve
+    try:
+        P = [resolve(p_) for p_ in paths_of(fn.node)]
+    except Unsupported as u:
+        raise AnalysisError(f"{fn.fq}: statement outside the path normal form ({u})")
+    out = []
+    for p_ in P:
+        rets = [e for e in p_ if e[0] == "return"]
+        if len(rets) != 1 or rets[0][1] is None:
+            continue
+        facts = {e[1]: e[2] for e in p_ if e[0] == "cond"}
+        try:
+            v = _ast.parse(rets[0][1], mode="eval").body
+        except SyntaxError:
+            continue
+        callee = recv = None
+        if depth > 0 and isinstance(v, _ast.Call):
+            f_ = v.func
+            if isinstance(f_, _ast.Attribute) and isinstance(f_.value, _ast.Name) and f_.value.id in ("self", "cls") and fn.cls is not None:
+                callee, recv = fn.cls.method(f_.attr), f_.value
+                if callee is not None and any(isinstance(d, _ast.Name) and d.id == "staticmethod" for d in callee.node.decorator_list):
+                    recv = None
+            elif isinstance(f_, _ast.Name):
+                callee = fn.module.functions.get(f_.id)
+        if callee is not None and callee is not fn:
+            expanded = []
+            ok = True
+            for cf, cv in return_forms(callee, depth - 1):
+                sv = substitute_call(callee.node, v, cv, receiver=recv)
+                if sv is None:
+                    ok = False
+                    break
+                d = dict(facts)
+                for k, tv in cf.items():
+                    try:
+                        sk = substitute_call(callee.node, v, _ast.parse(k, mode="eval").body, receiver=recv)
+                    except SyntaxError:
+                        sk = None
+                    d[norm(sk) if sk is not None else k] = tv
+                # facts that became constants after substitution decide feasibility of the callee path
+                feasible = True
+                for k in list(d):
+                    try:
+                        c = _ast.literal_eval(k)
+                    except (ValueError, SyntaxError):
+                        continue
+                    if bool(c) != d[k]:
+                        feasible = False
+                    del d[k]
+                if not feasible:
+                    continue
+                expanded.append((d, sv))
+            if ok and expanded:
+                out.extend(expanded)
+                continue
+        out.append((facts, v))
+    return out
